@@ -79,6 +79,13 @@ func (s *Strategy) choose(r *Rng, k *Kernel, timeOK bool) int {
 		}
 		elig = append(elig, i)
 	}
+	if len(elig) == 0 && timeOK {
+		// only goroutines that wait for a Go mutex can run, and a timer is pending: whoever holds the mutex is
+		// asleep (a lock wait inside a table load holds the transaction's loading mutex). Spinning on the
+		// waiters would keep the clock from ever moving - a livelock of the simulator, not of csvq (seen once in
+		// 255 000 thorough evaluations of C19 as a step-limit report: a false alarm, corrected here).
+		return n
+	}
 	if len(elig) == 0 {
 		for i := range k.parked {
 			elig = append(elig, i)
